@@ -77,6 +77,32 @@ def fresh_ok(prog, h, k, hx, hpt, call=None):
         return False
 
 
+def docgraph_fails(order):
+    """the graph of the CGraph.gradient docstring (recorded from a Python list, scalar output): every driver answers the same
+    whatever was called before (jacobian / vec_jac must not size their seed from what the last evaluation left in the node)"""
+    cg = algopy.CGraph()
+    x = algopy.Function([3., 7.])
+    y = x[0] * x[1]
+    cg.trace_off()
+    cg.independentFunctionList = [x]
+    cg.dependentFunctionList = [y]
+    p = np.array([1., 2.])
+    want = {'gradient': np.array([2., 1.]), 'jacobian': np.array([[2., 1.]]), 'vec_jac': np.array([4., 2.]), 'function': np.array(2.),
+            'jac_vec': np.array(4.)}
+    calls = {'gradient': lambda: cg.gradient(p), 'jacobian': lambda: cg.jacobian(p), 'vec_jac': lambda: cg.vec_jac(np.array([2.]), p),
+             'function': lambda: cg.function([[1., 2.]])[0], 'jac_vec': lambda: cg.jac_vec(p, np.array([1., 2.]))}
+    done = []
+    for k in order:
+        try:
+            got = np.asarray(calls[k](), dtype=float)
+        except Exception as ex:
+            return 'docgraph-exception: cg.%s raised %s after %s (graph of the gradient docstring, recorded from a list)' % (k, type(ex).__name__, done or ['recording'])
+        if got.size != want[k].size or not np.allclose(got.reshape(want[k].shape), want[k]):
+            return 'docgraph-%s: returned %s after %s, expected %s' % (k, got.tolist(), done or ['recording'], want[k].tolist())
+        done.append(k)
+    return None
+
+
 def history_fails(case):
     prog, N = case['prog'], case['N']
     try:
@@ -202,11 +228,21 @@ def nontrivial(case):
 
 
 def replay_case(ctx, case):
+    if 'docgraph' in case:
+        return docgraph_fails(case['docgraph'])
     return history_fails(case)
 
 
 def run(ctx):
     rng = ctx.rng
+    names = ['gradient', 'jacobian', 'vec_jac', 'function', 'jac_vec']
+    for i in range(20 if ctx.tier == 'quick' else 120):
+        order = [rng.choice(names) for _ in range(rng.randint(1, 5))]
+        ctx.evaluations += 1
+        ctx.count('docgraph-history')
+        f = docgraph_fails(order)
+        if f:
+            ctx.report({'docgraph': order}, 'failure', f)
     for case in kernel_cases(rng):
         ctx.evaluations += 1
         ctx.count('kernel-history')
